@@ -263,7 +263,9 @@ impl EnumMonitor {
             for w in &weights {
                 left_to_right *= *w;
             }
-            if v.prob.to_bits() == left_to_right.to_bits() {
+            // ... or the exact product rounded once (an implementation multiplying in f64 and narrowing at the end)
+            let rounded_once = expected as f32;
+            if v.prob.to_bits() == left_to_right.to_bits() || v.prob.to_bits() == rounded_once.to_bits() {
                 true
             } else {
                 match crate::refmodel::enumerate::possible_products(&weights) {
